@@ -112,6 +112,12 @@ func seqPart(c *vf.Ctx) {
 		l.merge(c)
 	})
 	c.Extra("phase_s_seq_map_random", int(time.Since(startT).Seconds()))
+	// consumers that mutate the structure they iterate
+	{
+		l := newLocal()
+		l.iterMutCases()
+		l.merge(c)
+	}
 	// SetArithmetic
 	nAr := c.Pick(20000, 300000)
 	vf.Parallel(64, workers, func(i int) {
@@ -203,6 +209,8 @@ func linzPart(c *vf.Ctx) {
 			reportDeadlock(c, -1, 0, "plain", res.Stderr)
 		case res.TimedOut:
 			c.Inconclusive("linearizability child hit the watchdog")
+		case res.ExitCode != 0 && strings.HasPrefix(res.Fatal, "panic:") && strings.Contains(res.Stderr, "github.com/iotaledger/hive.go/"):
+			c.Violation("concurrent-panic:child-died", "a hive.go method panicked under concurrent use and killed the child: "+res.Fatal, roundCase{Kind: "round", Pattern: "linz child", What: res.Fatal, Detail: trimDump(res.Stderr)})
 		case res.ExitCode != 0:
 			c.Inconclusive(fmt.Sprintf("linearizability child died: exit %d %s", res.ExitCode, res.Fatal))
 		}
@@ -273,6 +281,8 @@ func racePart(c *vf.Ctx, dead []int) {
 		}
 		if res.TimedOut {
 			c.Inconclusive("race child hit the watchdog at " + res.LastMark)
+		} else if res.ExitCode != 0 && strings.HasPrefix(res.Fatal, "panic:") && strings.Contains(res.Stderr, "github.com/iotaledger/hive.go/") {
+			c.Violation("concurrent-panic:child-died", "a hive.go method panicked under concurrent use and killed the race child: "+res.Fatal, roundCase{Kind: "round", Pattern: "race child", What: res.Fatal, Detail: trimDump(res.Stderr)})
 		} else if res.ExitCode != 0 && res.ExitCode != 66 {
 			c.Inconclusive(fmt.Sprintf("race child died: exit %d %s", res.ExitCode, res.Fatal))
 		} else {
@@ -302,7 +312,9 @@ func child(c *vf.Ctx) {
 		all := combos()
 		for idx := lo; idx < hi; idx++ {
 			c.Mark(strconv.Itoa(idx))
-			calls, ov, panics := runCombo(all[idx], iters, c.Seed+int64(idx))
+			calls, ov, panics, ik, iw := runCombo(all[idx], iters, c.Seed+int64(idx))
+			reportInvariant(c, "set", "methods "+comboName(all[idx])+" looped concurrently", c.Seed+int64(idx), ik, iw)
+			c.Count("quiescent_consistency_checks", 1)
 			c.Count("evaluations", 1)
 			c.Count("combinations_completed", 1)
 			c.Count("combinations_decided", 1)
@@ -320,6 +332,7 @@ func child(c *vf.Ctx) {
 		idx, _ := strconv.Atoi(c.ChildArgs[0])
 		n, _ := strconv.Atoi(c.ChildArgs[1])
 		linzChild(c, idx, n)
+		raceRounds(c, idx, n*2)
 	case "race":
 		iters, _ := strconv.Atoi(c.ChildArgs[0])
 		skip := map[int]bool{}
@@ -339,7 +352,8 @@ func child(c *vf.Ctx) {
 				continue
 			}
 			c.Mark("combo " + strconv.Itoa(idx))
-			runCombo(all[idx], iters, c.Seed+int64(idx))
+			_, _, _, ik, iw := runCombo(all[idx], iters, c.Seed+int64(idx))
+			reportInvariant(c, "set", "methods "+comboName(all[idx])+" looped concurrently (race build)", c.Seed+int64(idx), ik, iw)
 			c.Count("race_build_combinations_completed", 1)
 			if idx%16 == 15 {
 				c.FlushStats()
@@ -348,14 +362,18 @@ func child(c *vf.Ctx) {
 		c.Mark("linz")
 		linzChild(c, 100, c.Pick(300, 3000))
 		c.Mark("mapstress")
-		mapStress(c.Pick(3000, 30000), c.Seed)
+		ik, iw := mapStress(c.Pick(3000, 30000), c.Seed)
+		drainPanics(c, "OrderedMap stress", c.Seed)
+		reportInvariant(c, "orderedmap", "iteration/whole-map operations racing with single-key writes", c.Seed, ik, iw)
+		c.Mark("racing rounds")
+		raceRounds(c, 100, c.Pick(400, 4000))
 		c.Count("race_build_mapstress_runs", 1)
 	case "replay-combo":
 		idx, _ := strconv.Atoi(c.ChildArgs[0])
 		iters, _ := strconv.Atoi(c.ChildArgs[1])
 		c.Mark(strconv.Itoa(idx))
 		for k := 0; k < 20; k++ {
-			runCombo(combos()[idx], iters, c.Seed+int64(idx)+int64(k)*7919)
+			_, _, _, _, _ = runCombo(combos()[idx], iters, c.Seed+int64(idx)+int64(k)*7919)
 		}
 	}
 }
@@ -387,6 +405,13 @@ func replay(c *vf.Ctx) {
 		if step, fp, what, _ := runMapSeq(r.Universe, r.Ops, 0); fp != "" {
 			r.Step, r.What = step, what
 			c.Violation("orderedmap:"+fp, "OrderedMap history: "+what, r)
+		}
+	case "itermut":
+		var r iterCase
+		_ = json.Unmarshal(raw, &r)
+		if fp, what := runIterCase(r); fp != "" {
+			r.What = what
+			c.Violation(fp, what, r)
 		}
 	case "arith":
 		var r arithCase
@@ -423,6 +448,12 @@ func replay(c *vf.Ctx) {
 		} else if res.TimedOut || res.ExitCode != 0 {
 			c.Inconclusive("replay child: " + res.Fatal)
 		}
+	case "round":
+		// a concurrent round cannot be forced to repeat: the racing rounds and histories are run again
+		res := c.RunChild(vf.ChildOpts{Name: "linz", Args: []string{"0", "1500"}, Timeout: 10 * time.Minute})
+		if res.TimedOut || (res.ExitCode != 0 && !strings.HasPrefix(res.Fatal, "panic:")) {
+			c.Inconclusive("replay child: " + res.Fatal)
+		}
 	case "race":
 		var r raceCase
 		_ = json.Unmarshal(raw, &r)
@@ -443,7 +474,7 @@ func run(c *vf.Ctx) {
 		replay(c)
 		return
 	}
-	c.SetRule("sequential: one evaluation = one history whose last step is compared with the reference model (exhaustive part: all histories up to length 3 over the ds.Set alphabet on 3 elements – Add/Delete/AddAll/DeleteAll/Replace with every subset and the set itself, Apply with every disjoint pair of subsets, Compute with every disjoint pair of at most one element each, Clear, Clone, serix round trip – and up to length 6 (quick) / 7 (thorough) over the OrderedMap alphabet on 3 keys) or one checked step of a seeded long history (6 elements; ds.Set 40 steps with all read-only methods against every subset after each step, OrderedMap 60 steps, SetArithmetic 12 calls with thresholds 1-3); " +
+	c.SetRule("sequential: one evaluation = one history whose last step is compared with the reference model (exhaustive part: all histories up to length 3 over the ds.Set alphabet on 3 elements – Add/Delete/AddAll/DeleteAll/Replace with every subset and the set itself, Apply with every disjoint pair of subsets, Compute with every disjoint pair of at most one element each, Clear, Clone, serix round trip – and up to length 6 (quick) / 7 (thorough) over the OrderedMap alphabet on 3 keys) or one checked step of a seeded long history (6 elements; ds.Set 40 steps with all read-only methods against every subset after each step, OrderedMap 60 steps, SetArithmetic 12 calls with thresholds 1-3) or one ForEach/ForEachReverse/Range walk whose consumer mutates the structure (all combinations of up to 5 keys, keys deleted beforehand, position and action: delete current/next/later/last/earlier/first key, set new/existing key, clear); " +
 		"concurrent: one evaluation = one completed method combination (all 190 pairs and 1330 triples of 19 Set methods, looped on one set) or one recorded history judged by porcupine (Apply/Compute/Replace on a whole-set model; Add/Delete/Has and Set/Get/Has/Delete partitioned per key); " +
 		"distinct_nontrivial counts distinct (operation-class sequence, resulting order) signatures of sequential histories plus distinct completed method combinations")
 	stop := startProfile()
@@ -468,6 +499,8 @@ func run(c *vf.Ctx) {
 	c.Require("set:CodecSwap", 100)
 	c.Require("map:CodecSwap", 100)
 	c.Require("arith:calls", 10000)
+	c.Require("itermut:consumer-delete-next", 500)
+	c.Require("itermut:consumer-clear", 500)
 	c.Require("combinations_decided", len(combos()))
 	c.Require("overlapping_calls", 10000)
 	c.Require("histories:hist-atomic", 1000)
@@ -475,6 +508,9 @@ func run(c *vf.Ctx) {
 	c.Require("histories:hist-map", 1000)
 	c.Require("overlapping_op_pairs", 10000)
 	c.Require("compute_factory_views", 1000)
+	c.Require("racing_rounds:delete-reinsert", 10000)
+	c.Require("racing_rounds:clear-set", 10000)
+	c.Require("quiescent_consistency_checks", 20000)
 	c.Assume("porcupine v1.3.0 decides linearizability of the recorded histories correctly")
 	c.Assume("the logical clock (one atomic counter read before the call and after the reply) only removes ordering constraints")
 	c.Assume("order of the elements after Replace and inside returned sets is not demanded; Any() may return any member")
